@@ -1,4 +1,5 @@
 import FV.Proofs.RectSearch
+import FV.Proofs.RectSat
 import Mathlib.Algebra.Order.Ring.Unbundled.Rat
 /-
   C08 — the rectilinear shape search admits exactly the k-box single-trunk orthogons.
@@ -268,6 +269,141 @@ theorem solve_insat_iff {P : Problem α} (hP : Problem.WellFormed P) {k : Nat} (
   | insat => simp
   | found c rs => simp
 
+
+/-! ### composition with the SAT layer (property C07): the statements above about the actual CNF
+
+  `FV/Proofs/RectSat.lean` translates every abstract constraint into the posting `SATManager` receives
+  (`trC`; the objective as `solve` builds it with the `Expr` algebra: `objIneq`), each translated posting is well
+  formed (`trC_wf`, `objIneq_wf`), never refused (`trC_acceptable`) and means what the abstract constraint means
+  (`trC_holds`, `objIneq_holds`).  `nm` names the variables (`Var.user (nm v)` in the C07 model, hence never a
+  `robdd_<n>` / `aux_<n>` variable); the composition needs `nm` injective — for the names of `rect.py`
+  (`"b_<b>"`, `"b<i>_<b>"`, `"b<i>_x_<str(x)>"`, …) this is an assumption on `str` of the grid coordinates
+  (distinct coordinates have distinct `str`), carried here as the explicit hypothesis `hinj`.
+  `m0` is any manager that has posted nothing yet (its registered variables — `rect.py` registers every variable
+  through `newvar` — are arbitrary); `S0` is any well-formed process-wide ROBDD store ("any prior history"). -/
+
+open FV.RectSat in
+/-- on a grid, everything `solve` posts is accepted by the SAT layer (no exception), whatever the store holds -/
+theorem solve_posting_succeeds {P : Problem α} (hP : Problem.WellFormed P) (nm : Var α → String) (ratio dif0 : Int)
+    (k : Nat) {S0 : PB.Store Sat.Var} (hw : PB.WFStore S0) (m0 : Sat.Mgr) (hc : m0.clauses = [])
+    (hd : m0.codified = []) :
+    ∃ ps m S1, solvePosts nm P ratio dif0 k = some ps ∧ (∀ p ∈ ps, p.WF) ∧ postAll m0 S0 ps = .ok (m, S1) := by
+  obtain ⟨hC, hg⟩ := hP
+  have G : IsGridFor P.C P.ip := by rw [hC]; exact isGridFor_of_isGrid hg
+  obtain ⟨sh, hsh⟩ := shapeAux_isSome P (keysOk_of_grid G) (List.range k)
+  rw [← shapeConstrs_eq] at hsh
+  have hcs : solveConstrs P ratio dif0 k = some _ := solveConstrs_eq_some.2 ⟨sh, hsh, rfl⟩
+  obtain ⟨ps, hps, hwf, _⟩ := solvePosts_spec nm hcs
+  obtain ⟨m, S1, hpost, _⟩ := postAll_ok ps (minv_fresh hw m0 hc hd) hwf
+  exact ⟨ps, m, S1, hps, fun p hp => (hwf p hp).1, hpost⟩
+
+open FV.RectSat in
+/-- **cnf_models_are_orthogons**: for the manager state reached by posting everything `solve` posts, an assignment
+    of the variables `b<i>_<cell>` extends to a model of the generated CNF (clauses of the Heule chains with their
+    auxiliaries, Tseitin clauses of the objective's ROBDD, …) iff it is a k-box single-trunk orthogon meeting the
+    cost bound. -/
+theorem cnf_models_are_orthogons {P : Problem α} (hP : Problem.WellFormed P) {k : Nat} (hk : 0 < k)
+    {nm : Var α → String} (hinj : Function.Injective nm) {ratio dif0 : Int}
+    {S0 : PB.Store Sat.Var} (hw : PB.WFStore S0) {m0 : Sat.Mgr} (hc : m0.clauses = []) (hd : m0.codified = [])
+    {ps : List Sat.Post} {m : Sat.Mgr} {S1 : PB.Store Sat.Var} (hps : solvePosts nm P ratio dif0 k = some ps)
+    (hpost : postAll m0 S0 ps = .ok (m, S1)) (S : Nat → Nat → Bool) :
+    (∃ τ : Sat.Var → Bool, PB.cnfTrue τ m.clauses ∧
+        ∀ i, i < k → ∀ b, b < P.ip.length → τ (.user (nm (.cell i b))) = S i b) ↔
+      ∃ R, IsOrthogon P.C P.ip k S R ∧ dif0 ≤ shapeCost P ratio k S := by
+  have hP' := hP
+  obtain ⟨hC, hg⟩ := hP
+  have G : IsGridFor P.C P.ip := by rw [hC]; exact isGridFor_of_isGrid hg
+  obtain ⟨sh, hsh⟩ := shapeAux_isSome P (keysOk_of_grid G) (List.range k)
+  rw [← shapeConstrs_eq] at hsh
+  have hcs : solveConstrs P ratio dif0 k = some _ := solveConstrs_eq_some.2 ⟨sh, hsh, rfl⟩
+  obtain ⟨ps', hps', hwf, hholds⟩ := solvePosts_spec nm hcs
+  rw [hps] at hps'; cases hps'
+  obtain ⟨m', S', hpost', inv⟩ := postAll_ok ps (minv_fresh hw m0 hc hd) hwf
+  rw [hpost] at hpost'; cases hpost'
+  simp only [List.nil_append] at inv
+  rw [← solve_models hP' hk hcs S]
+  constructor
+  · rintro ⟨τ, hτ, hS⟩
+    exact ⟨pull nm τ, (hholds τ).1 (inv.sound τ hτ), hS⟩
+  · rintro ⟨σ, hs, hS⟩
+    have hpp := pull_push nm hinj σ
+    have hall : ∀ p ∈ ps, p.holds (push nm σ) := (hholds (push nm σ)).2 (by rw [hpp]; exact hs)
+    obtain ⟨τ, hag, _, hτ⟩ := inv.complete (push nm σ) hall
+    refine ⟨τ, hτ, fun i hi b hb => ?_⟩
+    rw [hag (.user (nm (.cell i b))) trivial, ← hS i hi b hb]
+    exact congrFun hpp (.cell i b)
+
+open FV.RectSat in
+/-- **solve_found_iff_cnf**: the only remaining hypothesis is the SAT solver's correctness (`Sat.SolverOK` on the
+    integer CNF handed to it).  `SATManager.solve()` on the manager reached by `solve`'s postings answers "satisfiable"
+    iff a k-box single-trunk orthogon meeting the cost bound exists; and then the model it exposes through `value` is,
+    on every registered variable, an assignment whose boxes form such an orthogon — the rectangles and the cost that
+    `rect.solve` computes from it are that orthogon's boxes and its objective plus one.
+    (`hcnf`: every literal's variable was registered through `newvar`, as `rect.py` does; otherwise `solve()` raises
+    `KeyError`, C07 `solve_unregistered`.) -/
+theorem solve_found_iff_cnf {P : Problem α} (hP : Problem.WellFormed P) {k : Nat} (hk : 0 < k)
+    {nm : Var α → String} (hinj : Function.Injective nm) {ratio dif0 : Int}
+    {S0 : PB.Store Sat.Var} (hw : PB.WFStore S0) {m0 : Sat.Mgr} (hc : m0.clauses = []) (hd : m0.codified = [])
+    (hnd : m0.vars.Nodup)
+    {ps : List Sat.Post} {m : Sat.Mgr} {S1 : PB.Store Sat.Var} (hps : solvePosts nm P ratio dif0 k = some ps)
+    (hpost : postAll m0 S0 ps = .ok (m, S1))
+    {cnf : List (List Int)} (hcnf : m.cnf = .ok cnf) {ans : Option (List Int)} (hsolver : Sat.SolverOK cnf ans)
+    {b : Bool} {m' : Sat.Mgr} (hs : m.solve ans = .ok (b, m')) :
+    (b = true ↔ ∃ S R, IsOrthogon P.C P.ip k S R ∧ dif0 ≤ shapeCost P ratio k S) ∧
+    (b = true → ∃ (σ : Assign α) (R : Nat → Box α),
+      (∀ v, Sat.Var.user (nm v) ∈ m.vars →
+        m'.value ⟨.user (nm v), true⟩ = some (if σ v = true then 1 else 0)) ∧
+      IsOrthogon P.C P.ip k (fun i b => σ (.cell i b)) R ∧
+      dif0 ≤ shapeCost P ratio k (fun i b => σ (.cell i b)) ∧
+      solveResult P ratio k (some σ) =
+        .found (shapeCost P ratio k (fun i b => σ (.cell i b)) + 1) ((List.range k).map fun i => some (R i))) := by
+  obtain ⟨h1, h2⟩ := Sat.solve_spec (postAll_nodup ps hpost hnd) hcnf hsolver hs
+  have key := fun S => cnf_models_are_orthogons hP hk hinj (ratio := ratio) (dif0 := dif0) hw hc hd hps hpost S
+  constructor
+  · rw [h1]
+    constructor
+    · rintro ⟨τ, hτ⟩
+      obtain ⟨R, hR⟩ := (key (fun i b => τ (.user (nm (.cell i b))))).1 ⟨τ, hτ, fun _ _ _ _ => rfl⟩
+      exact ⟨_, R, hR⟩
+    · rintro ⟨S, R, hR⟩
+      obtain ⟨τ, hτ, _⟩ := (key S).2 ⟨R, hR⟩
+      exact ⟨τ, hτ⟩
+  · intro hb
+    obtain ⟨τ, hτ, hval⟩ := h2 hb
+    have hP' := hP
+    obtain ⟨hC, hg⟩ := hP
+    have G : IsGridFor P.C P.ip := by rw [hC]; exact isGridFor_of_isGrid hg
+    obtain ⟨sh, hsh⟩ := shapeAux_isSome P (keysOk_of_grid G) (List.range k)
+    rw [← shapeConstrs_eq] at hsh
+    have hcs : solveConstrs P ratio dif0 k = some _ := solveConstrs_eq_some.2 ⟨sh, hsh, rfl⟩
+    obtain ⟨ps', hps', hwf, hholds⟩ := solvePosts_spec nm hcs
+    rw [hps] at hps'; cases hps'
+    obtain ⟨m2, S2, hpost', inv⟩ := postAll_ok ps (minv_fresh hw m0 hc hd) hwf
+    rw [hpost] at hpost'; cases hpost'
+    simp only [List.nil_append] at inv
+    have hsat : Sat (pull nm τ) _ := (hholds τ).1 (inv.sound τ hτ)
+    obtain ⟨l1, l2, l3, l4, l5⟩ := (sat_solve P G hcs).1 hsat
+    obtain ⟨R, hO, hB⟩ := orthogon_of_sat G (S := fun i b => pull nm τ (.cell i b)) l4 l5 (fun _ _ _ _ => rfl) hk
+    refine ⟨pull nm τ, R, fun v hv => ?_, hO, ?_, ?_⟩
+    · rw [hval _ hv true]
+      show some (PB.litVal τ ⟨.user (nm v), true⟩) = some (if τ (.user (nm v)) = true then 1 else 0)
+      cases h : τ (Sat.Var.user (nm v)) <;> simp [PB.litVal, PB.b2i, h]
+    · rw [← pbSum_obj P G.blocks_eq ratio l1]; exact l3
+    · simp only [solveResult, SolveResult.found.injEq]
+      refine ⟨by rw [pbSum_obj P G.blocks_eq ratio l1], ?_⟩
+      apply List.map_congr_left
+      intro i hi
+      have hi' := List.mem_range.1 hi
+      exact bboxOf_eq G (hO.box i hi').1 (hB i hi')
+
+/-- the variable names of `rect.py` (`pyName str`, `str` = Python's `str` on coordinates) are pairwise distinct as soon
+    as distinct coordinates have distinct `str`, and all start with `b` — none is a `robdd_<n>` / `aux_<n>` name of
+    the SAT layer nor a negated name.  (That they contain no `,` — used by the ROBDD memo keys — holds iff `str` of a
+    coordinate contains none: digits, `_`, letters otherwise.) -/
+theorem names_ok (str : α → String) (hstr : Function.Injective str) :
+    Function.Injective (RectSat.pyName str) ∧ ∀ v, (RectSat.pyName str v).toList.head? = some 'b' :=
+  ⟨RectSat.pyName_injective str hstr, RectSat.pyName_head str⟩
+
 /-! ### non-vacuity -/
 
 /-- a 2×1 grid with shifted origin, non-uniform and fractional spacing. -/
@@ -324,5 +460,19 @@ example : ∃ S R, IsOrthogon (defineCoords exGrid) exGrid 2 S R := by
     have : i = 1 := by omega
     subst this
     exact ⟨.west, by decide +kernel, by decide +kernel, by decide +kernel⟩
+
+/-- end to end on a 2×1 grid (shifted origin, non-uniform), k = 2, bound 25000 (needs both cells: the objective is not
+    a clause and goes through the ROBDD): with every variable registered, all 54 postings of `solve` are accepted and
+    the integer CNF handed to the solver exists (the hypothesis `hcnf` of `solve_found_iff_cnf` is met). -/
+def exRun : Option (Nat × Bool × Bool) :=
+  let P : Problem Nat := ⟨[⟨1, 3, 2, 5⟩, ⟨2, 3, 4, 5⟩], defineCoords [⟨1, 3, 2, 5⟩, ⟨2, 3, 4, 5⟩], [9000, 30000], [10000, 40000]⟩
+  match RectSat.solvePosts (RectSat.pyName toString) P 2 25000 2 with
+  | none => none
+  | some ps =>
+    match RectSat.postAll (RectSat.registered ps) PB.Store.init ps with
+    | .error _ => none
+    | .ok (m, S) => some (ps.length, decide (2 < S.memory.length), match m.cnf with | .ok _ => true | .error _ => false)
+
+example : exRun = some (54, true, true) := by decide +kernel
 
 end FV.C08
